@@ -23,8 +23,11 @@ thresholds in range, which `Threshold::new` guarantees).  For mixed time locks a
 unsatisfiability the defect is the library's own analysis (`…_model`); the semantic statement
 is `def switch_exact_mixed_time_locks_full`.
 
-T1/T4 are FALSE for the wsh/sh/bare descriptor entry points of the unchanged library; the
-negations are proved on concrete witnesses and the strongest true statements are `_partial`.
+T1/T4: since fix 8a19a019 (`top_level_type_check` tests the base type again) the wsh/sh/bare
+wrappers and descriptor parsers guarantee a type-B top level (`wrapper_obeys_ctx_partial`).
+They still never call `validate`, so T1/T4 remain FALSE for them in three respects (`d:`/`or_i`
+in `sh`, kind of `pk_h` keys, > 201 opcodes); `TapTree::leaf` + `Tr::new` still check nothing.
+The negations are proved on concrete witnesses, the strongest true statements are `_partial`.
 -/
 import MsVerif.Lemmas.ValidateCtx
 import MsVerif.Lemmas.ValidateTypes
@@ -381,8 +384,7 @@ theorem from_ast_obeys_ctx_false : ¬ from_ast_obeys_ctx_full := by
 `from_str_with_validation_params(_, &Ctx::CONSENSUS)`, `decode`, `decode_consensus`) and the
 `tr(..)` descriptor parsers: everything accepted obeys ALL rules of the context.
 Hypothesis `hlen`: the library's size figure `pk_cost` is the real script length (C04/C09;
-false for uncompressed keys, see finding F17 — there `script_size()`, which `validate` uses for
-`max_script_size`, is right and `pk_cost` is one byte short per key). -/
+it was one byte short per uncompressed key before fix F17, which the size judge found). -/
 theorem accepted_obeys_ctx_consensus (h : accepts env K ctx .msConsensus ms = true)
     (hlen : (extOf env ctx ms).pkCost = len ms) :
     ctxOK (factsFrom K len) ctx ms = true := by
@@ -446,22 +448,18 @@ theorem accepted_obeys_ctx_tr (e : Entry) (he : e = .trFromStr ∨ e = .descFrom
 /-- the full statement for ALL entry points -/
 def accepted_obeys_ctx_full : Prop :=
   ∀ (env : KeyEnv) (K : KeyInfo) (ctx : Ctx) (e : Entry) (ms : Ms) (len : Ms → Nat),
-    e ≠ .fromAst → e ≠ .wrapperFixed → accepts env K ctx e ms = true →
+    e ≠ .fromAst → accepts env K ctx e ms = true →
     (extOf env ctx ms).pkCost = len ms → ctxOK (factsFrom K len) ctx ms = true
 
 end T1
 
-/-- F5: `Wsh::new` / `Sh::new` / `Sh::new_wsh` / `Descriptor::new_*` / `Descriptor::from_str` of
-`wsh(..)`, `sh(..)`, `sh(wsh(..))` accept a top level that is not a complete boolean script:
-`top_level_type_check` has no base-type test.  Witness `wsh(pk_k(K))` (type K). -/
-theorem wrapper_accepts_non_B :
-    accepts demoEnv demoK .segwitv0 .wrapper (.pkK 0) = true ∧
-    accepts demoEnv demoK .segwitv0 .descFromStr (.pkK 0) = true ∧
-    accepts demoEnv demoK .legacy .wrapper (.verify (.check (.pkK 0))) = true ∧
-    accepts demoEnv demoK .legacy .descFromStr (.alt (.check (.pkK 0))) = true ∧
-    accepts demoEnv demoK .tap .trNew (.pkK 200) = true ∧
-    ruleTopB .segwitv0 (.pkK 0) = false ∧ ruleTopB .legacy (.verify (.check (.pkK 0))) = false ∧
-    ruleTopB .legacy (.alt (.check (.pkK 0))) = false ∧ ruleTopB .tap (.pkK 200) = false := by
+/-- what remains of F5: `TapTree::leaf` + `Tr::new` make no check on the leaf; a leaf that is
+not a complete boolean script (type K here) is accepted.  (`Wsh::new`, `Sh::new`, … now reject
+it: `wrapper_obeys_ctx_partial`.) -/
+theorem tr_new_accepts_non_B :
+    accepts demoEnv demoK .tap .trNew (.pkK 200) = true ∧ ruleTopB .tap (.pkK 200) = false ∧
+    accepts demoEnv demoK .segwitv0 .wrapper (.pkK 0) = false ∧
+    accepts demoEnv demoK .legacy .descFromStr (.alt (.check (.pkK 0))) = false := by
   decide
 
 /-- `sh(or_i(pk(A),pk(B)))`: accepted although `Legacy::CONSENSUS` forbids `or_i`;
@@ -469,6 +467,7 @@ theorem wrapper_accepts_non_B :
 compressed keys only -/
 theorem wrapper_accepts_other_violations :
     accepts demoEnv demoK .legacy .descFromStr (.orI (.check (.pkK 0)) (.check (.pkK 1))) = true ∧
+    accepts demoEnv demoK .legacy .wrapper (.orI (.check (.pkK 0)) (.check (.pkK 1))) = true ∧
     ruleCond .legacy (.orI (.check (.pkK 0)) (.check (.pkK 1))) = false ∧
     accepts demoEnv demoK .segwitv0 .wrapper (.check (.pkH 200)) = true ∧
     accepts demoEnv demoK .segwitv0 .descFromStr (.check (.pkH 100)) = true ∧
@@ -478,26 +477,41 @@ theorem wrapper_accepts_other_violations :
 
 theorem accepted_obeys_ctx_false : ¬ accepted_obeys_ctx_full := by
   intro h
-  have := h demoEnv demoK .segwitv0 .wrapper (.pkK 0)
-    (fun ms => (extOf demoEnv .segwitv0 ms).pkCost) (by decide) (by decide) (by decide) rfl
+  have := h demoEnv demoK .segwitv0 .wrapper (.check (.pkH 200))
+    (fun ms => (extOf demoEnv .segwitv0 ms).pkCost) (by decide) (by decide) rfl
   revert this; decide
 
-/-- with the repaired `top_level_type_check` (base must be `B`) the wrappers guarantee R1 and
-the fragment rules `from_ast` guarantees; what remains open then is exactly
+/-- where MINIMALIF is enforced there is no restriction on `d:` / `or_i` -/
+theorem ruleCond_of_minimalIf (ctx : Ctx) (ms : Ms) (h : minimalIf ctx = true) :
+    ruleCond ctx ms = true := by
+  simp only [ruleCond, everyNode_eq, List.all_eq_true]
+  intro m _
+  cases m <;> simp [condAllowed, h]
+
+/-- `Wsh::new` / `Sh::new` / `Sh::new_wsh` / `Bare::new` / `Descriptor::new_*` and
+`Descriptor::from_str` of `wsh(..)`, `sh(..)`, `sh(wsh(..))`, bare: the top level is a complete
+boolean script (R1, restored by fix 8a19a019) and the fragment rules `from_ast` guarantees hold;
+under MINIMALIF contexts R4 holds trivially.  What remains open is exactly
 `wrapper_accepts_other_violations` (`d:`/`or_i` in `sh`, kinds of `pk_h` keys), which
-`ms.validate(&Ctx::CONSENSUS)` in `top_level_checks` would close
-(`accepted_obeys_ctx_consensus`). -/
-theorem wrapper_fixed_obeys_ctx_partial (env : KeyEnv) (K : KeyInfo) (ctx : Ctx) (ms : Ms)
-    (len : Ms → Nat) (h : accepts env K ctx .wrapperFixed ms = true)
+`ms.validate(&Ctx::CONSENSUS)` in `top_level_checks` would close (`accepted_obeys_ctx_consensus`). -/
+theorem wrapper_obeys_ctx_partial (env : KeyEnv) (K : KeyInfo) (ctx : Ctx) (ms : Ms)
+    (len : Ms → Nat) (e : Entry) (he : e = .wrapper ∨ (e = .descFromStr ∧ ctx ≠ .tap))
+    (h : accepts env K ctx e ms = true)
     (hlen : (extOf env ctx ms).pkCost = len ms) :
     ruleTopB ctx ms = true ∧ ruleMulti ctx ms = true ∧ ruleRange ms = true ∧
       ruleDepth ms = true ∧ ruleSize (factsFrom K len) ctx ms = true ∧
-      ruleKeysChecked (factsFrom K len) ctx ms = true := by
-  simp only [accepts, Bool.and_eq_true, topLevelChecksFixed] at h
-  obtain ⟨hc, ⟨hB, _⟩⟩ := h
+      ruleKeysChecked (factsFrom K len) ctx ms = true ∧
+      (minimalIf ctx = true → ruleCond ctx ms = true) := by
+  have htl : constructed env K ctx ms = true ∧ topLevelChecks K ctx ms = true := by
+    rcases he with rfl | ⟨rfl, hne⟩
+    · simpa only [accepts, Bool.and_eq_true] using h
+    · cases ctx <;> simp_all [accepts]
+  obtain ⟨hc, htop⟩ := htl
+  simp only [topLevelChecks, topLevelTypeCheck, Bool.and_eq_true] at htop
+  obtain ⟨⟨hB, _⟩, _⟩ := htop
   have hfa : accepts env K ctx .fromAst ms = true := by simp [accepts, hc]
   obtain ⟨h1, h2, h3, h4, h5⟩ := from_ast_obeys_ctx_partial env K ctx ms len hfa hlen
-  refine ⟨?_, h1, h2, h3, h4, h5⟩
+  refine ⟨?_, h1, h2, h3, h4, h5, ruleCond_of_minimalIf ctx ms⟩
   cases hty : typeOf ms with
   | none => simp [hty] at hB
   | some ty =>
@@ -505,8 +519,8 @@ theorem wrapper_fixed_obeys_ctx_partial (env : KeyEnv) (K : KeyInfo) (ctx : Ctx)
     simp only [hty] at hB
     simp only [ruleTopB, ht1, ht2, hB]
 
-example : accepts demoEnv demoK .segwitv0 .wrapperFixed (.pkK 0) = false ∧
-    accepts demoEnv demoK .segwitv0 .wrapperFixed (.check (.pkK 0)) = true ∧
+example : accepts demoEnv demoK .segwitv0 .wrapper (.pkK 0) = false ∧
+    accepts demoEnv demoK .segwitv0 .wrapper (.check (.pkK 0)) = true ∧
     accepts demoEnv demoK .segwitv0 .msSane (.check (.pkK 0)) = true ∧
     ctxOK (demoF .segwitv0) .segwitv0 (.check (.pkK 0)) = true := by decide
 
@@ -524,12 +538,11 @@ def descriptor_accept_imp_consensus_full : Prop :=
   ∀ (env : KeyEnv) (K : KeyInfo) (ctx : Ctx) (ms : Ms),
     accepts env K ctx .descFromStr ms = true → accepts env K ctx .msConsensus ms = true
 
-/-- FALSE for `wsh`, `sh` and bare descriptors: no `validate` call is made for them.
-Witnesses: `wsh(pk_k(A))` (not B), `sh(or_i(pk(A),pk(B)))` (`or_i` in legacy),
-`wsh(pkh(<x-only>))`, bare `pkh(<x-only>)` (key kinds). -/
+/-- still FALSE for `wsh`, `sh` and bare descriptors: no `validate` call is made for them.
+Witnesses: `sh(or_i(pk(A),pk(B)))` (`or_i` in legacy), `wsh(pkh(<x-only>))`, bare
+`pkh(<x-only>)` (key kinds).  (The non-B witness `wsh(pk_k(A))` is gone with fix 8a19a019.) -/
 theorem descriptor_accept_imp_consensus_false :
-    (accepts demoEnv demoK .segwitv0 .descFromStr (.pkK 0) = true ∧
-      accepts demoEnv demoK .segwitv0 .msConsensus (.pkK 0) = false) ∧
+    (accepts demoEnv demoK .segwitv0 .descFromStr (.pkK 0) = false) ∧
     (accepts demoEnv demoK .legacy .descFromStr (.orI (.check (.pkK 0)) (.check (.pkK 1))) = true ∧
       accepts demoEnv demoK .legacy .msConsensus (.orI (.check (.pkK 0)) (.check (.pkK 1))) = false) ∧
     (accepts demoEnv demoK .segwitv0 .descFromStr (.check (.pkH 200)) = true ∧
@@ -538,8 +551,21 @@ theorem descriptor_accept_imp_consensus_false :
       accepts demoEnv demoK .bare .msConsensus (.check (.pkH 200)) = false) ∧
     ¬ descriptor_accept_imp_consensus_full := by
   refine ⟨by decide, by decide, by decide, by decide, fun h => ?_⟩
-  have := h demoEnv demoK .segwitv0 (.pkK 0) (by decide)
+  have := h demoEnv demoK .segwitv0 (.check (.pkH 200)) (by decide)
   revert this; decide
+
+/-- the part of T4 the fix restores: whatever a wsh/sh/bare descriptor accepts passes the
+`allow_non_b = false` clause of every parameter set (its top level is type B) -/
+theorem descriptor_accept_imp_base_B (env : KeyEnv) (K : KeyInfo) (ctx : Ctx) (ms : Ms)
+    (hne : ctx ≠ .tap) (h : accepts env K ctx .descFromStr ms = true) : D_nonB ms = false := by
+  have htop : topLevelChecks K ctx ms = true := by cases ctx <;> simp_all [accepts]
+  simp only [topLevelChecks, topLevelTypeCheck, Bool.and_eq_true] at htop
+  obtain ⟨⟨hB, _⟩, _⟩ := htop
+  cases hty : typeOf ms with
+  | none => simp [hty] at hB
+  | some ty =>
+    simp only [hty, beq_iff_eq] at hB
+    simp [D_nonB, hty, hB]
 
 /-- what does hold for every context: the descriptor parser accepts only what `from_ast`
 accepts on every node, and with the repaired wrapper check plus `validate(&Ctx::CONSENSUS)`
